@@ -41,6 +41,7 @@ type Prop struct {
 type Finding struct {
 	Property string `json:"property"`
 	Label    string `json:"label"`
+	Harness  string `json:"harness,omitempty"` // known findings: the harness (input family) the entry is about
 	Status   string `json:"status"` // known | fixed
 	Commit   string `json:"commit,omitempty"`
 	Text     string `json:"text"`
@@ -257,6 +258,11 @@ func cmdRun(args []string) {
 	if *tier == "thorough" && len(prop.Thorough) > 0 {
 		runs = prop.Thorough
 	}
+	for _, r := range runs {
+		if strings.Contains(r.Entry, "Testdata") {
+			withCorpus = true // the repository's own testdata workflows are compiled in
+		}
+	}
 	t0 := time.Now()
 	prog, pkg, err := loadProgram(false)
 	if err != nil {
@@ -266,10 +272,10 @@ func cmdRun(args []string) {
 	loadS := time.Since(t0).Seconds()
 
 	findings := loadFindings()
-	isKnown := func(label string) *Finding {
+	isKnown := func(label, harness string) *Finding {
 		for k := range findings {
 			f := &findings[k]
-			if f.Property == id && f.Label == label && f.Status == "known" {
+			if f.Property == id && f.Label == label && f.Status == "known" && (f.Harness == "" || f.Harness == harness) {
 				return f
 			}
 		}
@@ -345,7 +351,7 @@ func cmdRun(args []string) {
 			inconclusive = append(inconclusive, "solver unknown on obligation "+ev.Label)
 			continue
 		}
-		if f := isKnown(ev.Label); f != nil {
+		if f := isKnown(ev.Label, ev.Harness); f != nil {
 			if !seenLabel[ev.Label] {
 				seenLabel[ev.Label] = true
 				known = append(known, fmt.Sprintf("KNOWN-FINDING: property=%s %s — %s", id, ev.Label, f.Text))
